@@ -1255,6 +1255,18 @@ impl IQLEngine {
     /// order. The last node always stays last (it's the query).
     fn topological_sort_ir_nodes(&self, rule_heads: &[String]) -> Vec<usize> {
         let n = self.ir_nodes.len();
+        self.topological_sort_ir_nodes_for_query(rule_heads, n.saturating_sub(1))
+    }
+
+    /// Like `topological_sort_ir_nodes`, with the IR node of the query given explicitly.
+    /// The query's head is the head of the last rule as written; after SIP rewriting its
+    /// node is not necessarily the last one (helper rules of a later clause follow it).
+    fn topological_sort_ir_nodes_for_query(
+        &self,
+        rule_heads: &[String],
+        query_idx: usize,
+    ) -> Vec<usize> {
+        let n = self.ir_nodes.len();
         if n <= 1 {
             return (0..n).collect();
         }
@@ -1323,7 +1335,7 @@ impl IQLEngine {
 
         // Ensure the last IR node (the query) stays last in execution order.
         // The query is always the last parsed rule and must execute after all others.
-        let last_idx = n - 1;
+        let last_idx = query_idx.min(n - 1);
         if let Some(pos) = order.iter().position(|&i| i == last_idx) {
             if pos != order.len() - 1 {
                 order.remove(pos);
@@ -1550,6 +1562,12 @@ impl IQLEngine {
         // Parse, apply SIP rewriting, and build IR
         let (parse_result, parse_us) = collector.time(|| self.parse(source));
         parse_result?;
+        // The answer is the relation of the last rule as written (rewrites may append rules).
+        let query_head = self
+            .program
+            .as_ref()
+            .and_then(|p| p.rules.last())
+            .map(|r| r.head.relation.clone());
         let parse_ms = parse_us / 1000;
         info!(source_len, parse_ms, "engine_parse_complete");
         collector.breakdown.parse_us = parse_us;
@@ -1639,7 +1657,11 @@ impl IQLEngine {
         collector.breakdown.shared_views_us = shared_us;
 
         // Execute main rules in dependency order (topological sort)
-        let execution_order = self.topological_sort_ir_nodes(&rule_heads);
+        let query_idx = query_head
+            .as_ref()
+            .and_then(|h| rule_heads.iter().position(|r| r == h))
+            .unwrap_or_else(|| self.ir_nodes.len().saturating_sub(1));
+        let execution_order = self.topological_sort_ir_nodes_for_query(&rule_heads, query_idx);
         let mut last_result: Vec<Tuple> = Vec::new();
 
         for &i in &execution_order {
